@@ -28,4 +28,4 @@ def correspond(ctx):
 
 
 def replay(ctx, obj):
-    return lanes.replay_parts(ctx, obj, {"lanes": lanes.replay, "hlane": c03_hlane.replay})
+    return lanes.replay_parts(ctx, obj, {"lanes": lanes.replay, "words": lanewords.replay, "hlane": c03_hlane.replay})
